@@ -1,7 +1,8 @@
 (* C01/C04 model runner: one recorded copy per line on stdin.
    <id> <N> <K> <mode g|t|r> <root> <cached0 ids|-> <nodes> <d0> <trace> [rp=...]
      K     : CopyGraphOptions.Concurrency as passed (<= 0: the default regenerated from copy.go)
-     root  : root after resolveRoot/MapRoot; -1 = the prologue fails (trace must be just RT.0)
+     root  : root after resolveRoot/MapRoot; -1 = the prologue fails (trace must be just RT.0);
+             r1+r2+...: the roots of an ExtendedCopyGraph call (mode g)
      nodes : ';'-separated, per node  <flags>/<dkey>/<succ>   flags: f foreign, m manifest, - none;
              succ: ','-separated node ids or '-'
      d0    : ','-separated node ids initially in the destination, or '-'
@@ -69,11 +70,10 @@ let event_of tok =
 let () =
   iter_lines (fun l ->
     match split_ws l with
-    | id :: _ :: _ :: "x" :: _ -> Printf.printf "%s UNJUDGED\n" id  (* ExtendedCopy: oracle only *)
     | id :: sn :: sk :: smode :: sroot :: sc0 :: snodes :: sd0 :: strace :: rest ->
       (try
         let sel = match platform_field rest with Some spec -> " sel=" ^ select_of spec | None -> "" in
-        if int_of_string sroot < 0 then begin
+        if sroot.[0] = '-' then begin
           (match prologue None None with
            | None -> if strace = "RT.0" then Printf.printf "%s PROLOGUE-ERR%s\n" id sel
                      else Printf.printf "%s REJ 0 %s\n" id strace
@@ -107,9 +107,10 @@ let () =
           | CMounted -> cbits.[3] = '1' | CMountFrom -> cbits.[4] = '1' in
         let mount = String.length smode = 2 && smode.[1] = 'm' in
         let mode = match String.sub smode 0 1 with "g" -> MGraph | "t" -> MTagger | "r" -> MRefPush | _ -> failwith "mode" in
-        let root = int_of_string sroot in
+        let root, xroots = match List.map int_of_string (String.split_on_char '+' sroot) with
+          | r :: xs -> r, xs | [] -> failwith "root" in
         let c = { c_K = eff_K_gen (z_of_int (int_of_string sk)); c_mode = mode; c_root = nat_of_int root; c_mount = mount; c_tagmounted = true;
-                  c_cached0 = List.map nat_of_int (ints sc0) } in
+                  c_cached0 = List.map nat_of_int (ints sc0); c_xroots = List.map nat_of_int xroots } in
         let d0 = List.map nat_of_int (ints sd0) in
         let toks = if strace = "-" then [] else String.split_on_char ',' strace in
         let tr = List.map event_of toks in
@@ -131,7 +132,8 @@ let () =
           let ret = match st.returned with Some true -> "1" | Some false -> "0" | None -> "-" in
           let tg = match st.tag with Some t -> string_of_int (int_of_nat t) | None -> "-" in
           let pres d = sort_uniq_ints (List.map int_of_nat (present_nodes g d)) in
-          let cr = if ret = "1" then show_ints (pres (copy_result g d0 (nat_of_int (n + 1)) (nat_of_int root))) else "-" in
+          let cr = if ret = "1" then show_ints (pres (List.concat (List.map (fun r ->
+                     copy_result g d0 (nat_of_int (n + 1)) (nat_of_int r)) (root :: xroots)))) else "-" in
           let gauges = if ret = "1" then Printf.sprintf "ms=%d md=%d" !ms !md else "ms=- md=-" in
           Printf.printf "%s ACC ret=%s tag=%s dst=%s cr=%s %s%s\n" id ret tg (show_ints (pres st.dst)) cr gauges sel
       with Failure m -> Printf.printf "%s BAD %s\n" id m)
